@@ -158,7 +158,36 @@ class MetadataManager:
 
             try:
                 # PHASE 1: Validation (inside lock to prevent races)
-                current = self.refresh()
+                #
+                # On CAS backends the hint is read ONCE, together with its ETag,
+                # and the base is validated against exactly the version that read
+                # named. The commit point below is a conditional PUT keyed to that
+                # ETag, so it succeeds only if the pointer still names the version
+                # that was validated. (Validating first and fetching the ETag
+                # afterwards left a window: a commit landing in between was
+                # validated against nothing and silently overwritten whenever the
+                # lock did not exclude - lapsed lease, takeover, broken lock.)
+                hint_etag: Optional[str] = None
+                filesystem_version: Optional[int] = None
+                previous_metadata_file: Optional[str] = None
+                current: Optional[TableMetadata] = None
+                validated_from_hint = False
+                if self.storage.supports_cas:
+                    try:
+                        hint_bytes, hint_etag = self.storage.read_file_with_etag(self.HINT_PATH)
+                        parsed = self._parse_hint_content(hint_bytes)
+                        if parsed is not None and self.storage.exists(
+                            f"{self.metadata_path}/{parsed[1]}"
+                        ):
+                            filesystem_version, previous_metadata_file = parsed
+                            current = self._read_metadata_file(
+                                f"{self.metadata_path}/{previous_metadata_file}"
+                            )
+                            validated_from_hint = True
+                    except FileNotFoundError:
+                        hint_etag = None
+                if not validated_from_hint:
+                    current = self.refresh()
 
                 # Check UUID consistency
                 if current and current.table_uuid != base_metadata.table_uuid:
@@ -191,19 +220,8 @@ class MetadataManager:
                 if current and new_metadata.last_updated_ms <= current.last_updated_ms:
                     new_metadata.last_updated_ms = current.last_updated_ms + 1
 
-                # Read current version (and, on CAS backends, the hint's ETag so
-                # the commit point below can be a true compare-and-swap).
-                hint_etag: Optional[str] = None
-                filesystem_version: Optional[int] = None
-                previous_metadata_file: Optional[str] = None
-                if self.storage.supports_cas:
-                    try:
-                        hint_bytes, hint_etag = self.storage.read_file_with_etag(self.HINT_PATH)
-                        parsed = self._parse_hint_content(hint_bytes)
-                        if parsed is not None:
-                            filesystem_version, previous_metadata_file = parsed
-                    except FileNotFoundError:
-                        hint_etag = None
+                # Current version number (on CAS backends already known from the
+                # hint read above).
                 if filesystem_version is None:
                     info = self._current_version_info()
                     if info is not None:
